@@ -160,7 +160,7 @@ def run_tlc_shards(spec_name, shard_files, checks, wd, timeout=1500, extra_env=N
             env.update(extra_env)
         outp = f + ".tlc.out"
         fh = open(outp, "w")
-        p = subprocess.Popen(tlc_cmd(spec, cfg, meta), cwd=wd, env=env, stdout=fh, stderr=subprocess.STDOUT)
+        p = subprocess.Popen(tlc_cmd(spec, cfg, meta, xmx="3g"), cwd=wd, env=env, stdout=fh, stderr=subprocess.STDOUT)
         return (p, f, outp, fh, time.time())
 
     while pending or running:
